@@ -836,6 +836,25 @@ func (g *gen) ret(ins *ssa.Return) {
 	}
 	env := g.specEnvHere()
 	g.bindResults(env, g.fn.Signature, rs)
+	// obligations inherited from the contract of the interface method this method implements
+	for _, ic := range g.ifaceCtrs {
+		ienv := g.specEnvHere()
+		g.bindResults(ienv, g.fn.Signature, rs)
+		if len(g.fn.Params) > 0 {
+			ienv.vars["recv"] = g.val(g.fn.Params[0])
+			for i, p := range g.fn.Params[1:] {
+				ienv.vars[fmt.Sprintf("arg%d", i)] = g.val(p)
+			}
+		}
+		for _, en := range ic.Ensures {
+			t, err := g.evalBool(ienv, en.E)
+			if err != nil {
+				g.contractErr("iface-ensures", en.Label, err)
+				continue
+			}
+			g.oblige("post", "implements "+ic.Key+": "+en.Label, t, ins.Pos(), en.Props)
+		}
+	}
 	for _, en := range g.ctr.Ensures {
 		t, err := g.evalBool(env, en.E)
 		if err != nil {
